@@ -14,6 +14,7 @@ from ..interp import fmt, contains
 from ..model import AnalysisError
 from .. import q
 from .c11 import gate_held, helper_lock_field
+from ..roles import std_inline
 
 
 def check(ctx, rep):
@@ -30,7 +31,7 @@ def check(ctx, rep):
     sh = ci.methods.get("shutdown")
     rep.require(sm is not None and sh is not None, "CancelOnShutdownExecutor.submit / shutdown not found")
     # the tracked set: the self field that receives .add(<delegate future>)
-    ps, it = ctx.paths(sm, ci, depth=1, inline=_gate_only)
+    ps, it = ctx.paths(sm, ci, depth=5, inline=std_inline)
     tracked = set()
     nok = 0
     for p in ps:
@@ -64,14 +65,14 @@ def check(ctx, rep):
     T = ("attr", SELF, tracked.pop())
 
     # ---- shutdown
-    ps, it = ctx.paths(sh, ci, depth=2, inline=_helper_only)
+    ps, it = ctx.paths(sh, ci, depth=5, inline=std_inline)
     nfirst = 0
     for p in ps:
         if p.status == "raise":
             continue
         flips = [e for e in p.evs("store") if e.d["target"][0] == "attr" and e.d["target"][2] == "is_shutdown" and e.d["value"] == ("const", True)]
         snaps = [e for e in p.calls() if (q.call_name(e) == "copy" and q.recv(e) == T) or (q.call_name(e) in ("list", "set", "tuple", "frozenset") and e.d["args"] == (T,))]
-        loops = [e for e in p.evs("loop") if e.d[0] == "enter" and e.fn is sh]
+        loops = [e for e in p.evs("loop") if e.d[0] == "enter"]
         cancels = [e for e in p.calls() if q.call_name(e) == "cancel"]
         dsh = [e for e in p.calls() if q.call_name(e) == "shutdown" and q.recv(e) == ("attr", SELF, "_delegate")]
         if not flips:
